@@ -24,11 +24,12 @@ func init() {
 			{"RECEIVE-MERGES", ruleReceiveMerges},
 			{"SYNC-BEFORE-MERGE", ruleSyncBeforeMerge},
 			{"EVENT-COLLECTION-ID", ruleEventCollectionID},
+			{"REPLICATOR-TABLE-EXACT", ruleReplicatorTableExact},
 			{"LOADERS", ruleLoaders},
 			{"LOCK-ESCAPE", ruleLockEscape},
 		},
 		Meta: eng.PropMeta{
-			Explanation: "'Eventually' over outage sequences is a liveness statement and is not decided. Decided are the structural conditions without which delivery cannot happen: (FAILURE-RECORDED) a failed first push passes handleReplicatorFailure on the error exit of pushLog (deferred, for non-retry events), and handleReplicatorFailure writes the inactive status, the retry record and the per-document marker in one committed transaction; (RETRY-LOOP) NewPeer starts the retry loop, the loop calls retryReplicators, a due replicator is marked retrying and handed to retryReplicator, and every exit of retryReplicator that follows the marking passes handleCompletedReplicatorRetry (so a retry record never stays 'retrying'); a retried document is pushed through the same pushLog with IsRetry set and deleted from the retry set only after a successful push; (USE-AFTER-ERR) no iterator or other co-result of a failed storage call is used in package net; (PUSH-ON-UPDATE) every update event received by the peer reaches pushLogToReplicators and the pubsub publication; (SYNC-BEFORE-MERGE) the receiver raises the merge event only after a successful DAG sync; (LOADERS) replicators and subscriptions are reloaded at start-up; (LOCK-ESCAPE) the replicator table is read consistently. (KEY-KIND-PAIRING) every peer-store key that is deleted with a single Delete is built by a constructor that some Set in the package also uses, and is not a prefix key; (EVENT-COLLECTION-ID) every update event built by the database or by the retry path is addressed with a collection id (a field named CollectionID), never with a schema version id — a retried push must be resolvable by a receiver at another schema version exactly like a first push; (TXN-AFTER-LOCK) in a function-scope critical section (Lock … defer Unlock) the transaction is created after the lock is taken.",
+			Explanation: "'Eventually' over outage sequences is a liveness statement and is not decided. Decided are the structural conditions without which delivery cannot happen: (FAILURE-RECORDED) a failed first push passes handleReplicatorFailure on the error exit of pushLog (deferred, for non-retry events), and handleReplicatorFailure writes the inactive status, the retry record and the per-document marker in one committed transaction; (RETRY-LOOP) NewPeer starts the retry loop, the loop calls retryReplicators, a due replicator is marked retrying and handed to retryReplicator, and every exit of retryReplicator that follows the marking passes handleCompletedReplicatorRetry (so a retry record never stays 'retrying'); a retried document is pushed through the same pushLog with IsRetry set and deleted from the retry set only after a successful push; (USE-AFTER-ERR) no iterator or other co-result of a failed storage call is used in package net; (PUSH-ON-UPDATE) every update event received by the peer reaches pushLogToReplicators and the pubsub publication; (SYNC-BEFORE-MERGE) the receiver raises the merge event only after a successful DAG sync; (LOADERS) replicators and subscriptions are reloaded at start-up; (LOCK-ESCAPE) the replicator table is read consistently. (KEY-KIND-PAIRING) every peer-store key that is deleted with a single Delete is built by a constructor that some Set in the package also uses, and is not a prefix key; (EVENT-COLLECTION-ID) every update event built by the database or by the retry path is addressed with a collection id (a field named CollectionID), never with a schema version id — a retried push must be resolvable by a receiver at another schema version exactly like a first push; (REPLICATOR-TABLE-EXACT) updateReplicators updates the in-memory table on every path — also when the connection attempt to the peer fails — so a replicator configured or reloaded while its peer is down is pushed to once the peer returns; (TXN-AFTER-LOCK) in a function-scope critical section (Lock … defer Unlock) the transaction is created after the lock is taken.",
 			NotDecided:  "eventual delivery over arbitrary outage/reconnect sequences (liveness), equality of A's and B's documents at quiescence, behaviour when the retry budget is exhausted; the derivation of the collection id of a retried push from the block's schema version (predicted in DESIGN section 5 item 11) could not be reproduced and is not claimed",
 		},
 	})
